@@ -614,6 +614,10 @@ pub struct OrderCase {
     /// None = all at once; Some(n) with n >= number of addresses behaves the same
     pub conc: Option<u8>,
     pub simple_timeout: bool,
+    /// the addresses are handed to `TcpTransport::connect_to_addrs` (already carrying the port) instead of
+    /// coming from the resolver through the `tower::Service` impl: the same preference order applies
+    #[serde(default)]
+    pub direct: bool,
 }
 
 pub struct OrderEngine;
@@ -652,7 +656,15 @@ impl Engine for OrderEngine {
             let transport: TcpTransport<ListResolver, TcpStream> = TcpTransport::builder().with_config(cfg).with_resolver(ListResolver(answer.clone())).build();
             let uri: http::Uri = format!("http://order.test:{port}/").parse().unwrap();
             let parts = http::Request::get(uri).body(()).unwrap().into_parts().0;
-            let stream = transport.oneshot(parts).await;
+            let stream = if case.direct {
+                let with_port: Vec<SocketAddr> = answer.iter().map(|a| SocketAddr::new(a.ip(), port)).collect();
+                transport.connect_to_addrs(with_port).await.map_err(|e| e.to_string())
+            } else {
+                transport.oneshot(parts).await.map_err(|e| e.to_string())
+            };
+            if case.direct {
+                rep.class("connect-to-addrs-entry-point");
+            }
             // everything that was started is in the accept queue by now (loopback connects complete inside the call)
             let mut arrived: Vec<IpAddr> = vec![];
             while let Ok(Ok((s, _))) = tokio::time::timeout(std::time::Duration::from_millis(30), listener.accept()).await {
@@ -694,5 +706,5 @@ impl Engine for OrderEngine {
 
 pub fn order_strategy() -> impl proptest::strategy::Strategy<Value = OrderCase> {
     use proptest::prelude::*;
-    (proptest::collection::vec(0u8..6, 1..7), (any::<bool>(), any::<bool>()), prop_oneof![2 => Just(None), 1 => (0u8..3).prop_map(Some)], any::<bool>()).prop_map(|(addrs, bound, conc, simple_timeout)| OrderCase { addrs, bound, conc, simple_timeout })
+    (proptest::collection::vec(0u8..6, 1..7), (any::<bool>(), any::<bool>()), prop_oneof![2 => Just(None), 1 => (0u8..3).prop_map(Some)], any::<bool>(), any::<bool>()).prop_map(|(addrs, bound, conc, simple_timeout, direct)| OrderCase { addrs, bound, conc, simple_timeout, direct })
 }
